@@ -914,7 +914,31 @@ type State struct {
 
 func (st State) Sources() map[string]string { return Render(st.S, st.K) }
 
-var CosmeticOpNames = []string{"Rerender", "ReorderDecls", "SyntaxLineProto2", "RegroupRanges"}
+var CosmeticOpNames = []string{"Rerender", "ReorderDecls", "SyntaxLineProto2", "RegroupRanges", "RespellDefaults"}
+
+// respellDefaults rewrites the default literals of the schema in another spelling of the same
+// value (hex / octal integers, other float notation, values equal after rounding to the field's
+// float width, other quoting / escapes of strings and bytes).
+func respellDefaults(r *hx.Rand, s *Schema) bool {
+	hit := false
+	one := func(fl *Field) {
+		if fl.Default == "" || fl.Ref != RefScalar || fl.Group != nil {
+			return
+		}
+		if d, ok := RespellDefault(r, fl.Type, fl.Default); ok {
+			fl.Default, hit = d, true
+		}
+	}
+	for _, ml := range s.Msgs() {
+		for _, fl := range ml.M.Fields {
+			one(fl)
+		}
+	}
+	for _, es := range s.extFields() {
+		one(es.fl)
+	}
+	return hit
+}
 
 // regroup re-expresses a list of number ranges without changing the set of numbers: a range is
 // split into two adjacent ones, or two adjacent ranges are merged (tag_ranges.go collapses
@@ -956,6 +980,12 @@ func shuffleMsg(r *hx.Rand, m *Message) {
 
 // ApplyCosmetic returns a state that is the same schema for the detector.
 func ApplyCosmetic(st State, r *hx.Rand) (State, string) {
+	if r.Chance(1, 5) {
+		s := st.S.Clone()
+		if respellDefaults(r, s) {
+			return State{S: s, K: st.K}, "RespellDefaults"
+		}
+	}
 	if r.Chance(1, 5) {
 		s := st.S.Clone()
 		hit := false
